@@ -582,6 +582,23 @@ fn run_product(rep: &mut Report, mode: Mode, tier: Tier) {
         rep.bounds["P2-all"] = json!({"alphabet": n, "ordered_pairs": n * n, "offsets": offsets, "records": "pretty + every straddling width limit"});
         rep.absorb(t);
     }
+    // free-running concurrency pass (sampled schedules): eight threads print at the same time
+    {
+        let vals: Vec<RV> = f_shape(3).into_iter().chain([RV::Str("a string longer than sixteen bytes \u{1}\u{e9}\"".into()), RV::Obj(vec![("k\n".into(), RV::Arr(vec![RV::num("1.5e3"), RV::Str("\u{1f600}".into())]))])]).collect();
+        let reals: Vec<Value> = vals.iter().map(bridge::to_value).collect();
+        let recs: Vec<json_syntax::print::Options> = presets().iter().map(|(_, o)| bridge::to_options(o)).collect();
+        let n = reals.len() * recs.len();
+        let mut t = Tally::new();
+        match explore::concurrent_agreement(8, 4, n, |i| reals[i / recs.len()].print_with(recs[i % recs.len()].clone()).to_string()) {
+            Ok(k) => {
+                t.evals += k;
+                t.outcome("concurrent prints agree with sequential ones (sampled schedules)");
+            }
+            Err(e) => t.violation("", format!("output differs when 8 threads print at the same time: {e}"), json!({"kind": "concurrent"})),
+        }
+        rep.bounds["concurrent"] = json!({"threads": 8, "rounds": 4, "cases": n, "schedules": "free-running (sampled, not enumerated)"});
+        rep.absorb(t);
+    }
     // a destination that fails: printing into a writer that accepts only k bytes (every k below
     // the length of the output) must report the error, and the next print on the same thread
     // must be unaffected by whatever the failed one left behind
